@@ -51,6 +51,17 @@ func init() {
 		Outside:     []string{"casts (int)/(float)/(string)/(bool): need package std, whose import drags database drivers into the SSA program", "string<->number juggling beyond the concrete pool", "** and . with symbolic numbers (number formatting / math.Pow are not encoded): concrete boundary pools there", "strings longer than 2 bytes"},
 	})
 
+	c02 := func(fn string) RunDef { return RunDef{Fn: fn, Tier: "quick", Reach: []string{"end"}} }
+	reg(Check{
+		ID:  "C02",
+		Pkg: "verif/harness/c02",
+		Runs: []RunDef{c02("H_for_nested"), c02("H_while_nested"), c02("H_foreach"), c02("H_switch_in_for"), c02("H_func_defaults"), c02("H_static_counter"),
+			c02("H_locals_isolated"), c02("H_if_chain"), c02("H_match"), c02("H_counter_escapes"), c02("H_return_from_loop")},
+		Rule:        rule + "; each template is parsed by the real parser on every path and run by the real evaluators with symbolic loop limits/trigger indexes in [-1,3] (unbounded ints where no loop depends on them); exit statement kind and level are enumerated by solver-driven case split; the oracle is the same algorithm in Go executed in the same path",
+		Assumptions: []string{"switch fall-through into the next case and a bare 'continue' directly inside switch are not asserted (docs are silent / PHP-specific)"},
+		Outside:     []string{"programs outside the 11 templates", "loop counts > 3, nesting depth > 2", "generators, goto, strings in conditions"},
+	})
+
 	c17 := func(fn string, p map[string]int) RunDef {
 		return RunDef{Fn: fn, Params: p, Tier: "quick", Reach: []string{"end"}}
 	}
